@@ -93,6 +93,13 @@ def check_dfa_ref(acc, spec, which, scheme='s', length=5):
         acc.nontrivial += 1
     for ex in which:
         if ex == 'dfa-for-language':
+            if acc.states % 5 == 0:
+                # an earlier, rejected submission in the same session must not influence the verdict on the right answer
+                try:
+                    verdict(nb.check_dfa_language_from_words, 'initial z\nz z a', 'a aa b', length, 1)
+                    verdict(nb.check_dfa_language_from_words, text, 'zzz', length, 1)
+                except Exception:
+                    pass
             run_exercise(acc, ex, inst, rp, lambda: apply_command('generate', [f, str(length)]), nb.check_dfa_language_from_words, lambda words: (apply_command('load', [f]), words, length, 0))
         elif ex == 'dfa-complement':
             run_exercise(acc, ex, inst, rp, lambda: apply_command('dfa_complement', [f]), nd.check_dfa_complement, lambda a: (text, a))
@@ -373,8 +380,11 @@ def plan(tier, seed):
 
     add('shipped', None, 1)
     noreg = [e for e in DFA_EX if e != 'dfa-to-regexp']
-    for (n, k) in ((1, 1), (1, 2), (2, 1), (2, 2), (3, 1)):
+    for (n, k) in ((1, 1), (1, 2), (2, 1), (2, 2), (3, 1), (1, 3)):
         add('dfa', [n, k], 2)
+    add('dfa', [2, 3], 4)
+    add('dfa', [3, 3], 16, stride=64 if q else 8, which=[e for e in DFA_EX if e != 'dfa-to-regexp'])
+    add('dfa', [3, 3], 16, stride=256 if q else 32, which=['dfa-to-regexp'])
     add('dfa', [2, 1], 1, which=['dfa-to-regexp-8'])
     add('dfa', [2, 2], 4, which=['dfa-to-regexp-8'], stride=1 if not q else 4)
     add('dfa', [3, 2], 16, which=noreg, stride=2 if q else 1)
@@ -393,7 +403,7 @@ def plan(tier, seed):
     add('cfg', ['cfg2'], 32, stride=16 if q else 2)
     add('cfg', ['cfg2+'], 32, stride=16 if q else 2)
     add('cnf', [4 if q else 5], 32)
-    return {'tasks': tasks, 'bounds': {'spaces': 'DFA(n<=2,k<=2), DFA(3,1) all exercises; DFA(3,2){}; pairs DFA(n<=2)^2{}, DFA(3,1)xDFA(2,1); NFA(1,1), NFA(2,1), NFA(2,2{}) with eps _ and ε, NFA(3,1,<=3); non-degenerate expressible grammars of CFG2 / CFG2+ (stride 1/{}) and CNF(3) with <= {} rules; the 19 shipped with-answers notebooks'.format(
+    return {'tasks': tasks, 'bounds': {'spaces': 'DFA(n<=2,k<=3), DFA(3,1) all exercises; DFA(3,3) strided; DFA(3,2){}; pairs DFA(n<=2)^2{}, DFA(3,1)xDFA(2,1); NFA(1,1), NFA(2,1), NFA(2,2{}) with eps _ and ε, NFA(3,1,<=3); non-degenerate expressible grammars of CFG2 / CFG2+ (stride 1/{}) and CNF(3) with <= {} rules; the 19 shipped with-answers notebooks'.format(
         ' stride 1/2 (regexp exercise 1/8)' if q else '', ' (k=2 stride 1/4)' if q else '', ',<=4' if q else '', 16 if q else 2, 4 if q else 5)},
             'exhaustive': True,
             'rule': 'for every reference object: the answer is computed by notebooks/make_notebook.apply_command from a temp file exactly as the notebook generator does, and handed to the checker call of the template; the verdict line must be OK; non-trivial = reference with >= 2 states / transitions / a generated word',
